@@ -181,6 +181,7 @@ func resolveStructFields(fn *ssa.Function) bool {
 			}
 			return best.Val
 		}
+		busy := map[*ssa.BasicBlock]int{}
 		var atEntry, atExit func(b *ssa.BasicBlock) ssa.Value
 		atEntry = func(b *ssa.BasicBlock) ssa.Value {
 			if v, ok := memo[b]; ok {
@@ -190,8 +191,17 @@ func resolveStructFields(fn *ssa.Function) bool {
 			case 0:
 				memo[b] = zeroOf(ft)
 			case 1:
-				memo[b] = nil
-				memo[b] = atExit(b.Preds[0])
+				// (not memoised while in progress: the header's phi, built further up
+				// this very chain, asks for the same blocks again on its other edges and
+				// must get the value, not a placeholder; a chain of single-predecessor
+				// blocks cannot close a cycle without passing a merge)
+				if busy[b] > 40 {
+					return nil
+				}
+				busy[b]++
+				v := atExit(b.Preds[0])
+				busy[b]--
+				memo[b] = v
 			default:
 				nm := a.Comment
 				if i >= 0 {
